@@ -103,6 +103,19 @@ class P(Prop):
         c = gen.circuit(rng, allow_x=True, consts=0.3, adversarial=0.1)
         if rng.random() < 0.4:
             gen.add_flops(rng, c, connect_all=rng.random() < 0.6)
+        if rng.random() < 0.35:
+            # a source-only blackbox (tie cell / ROM): no input pins, one output pin driving a buf
+            b = c.add("srcbuf", "buf", output=rng.random() < 0.7, uid=True)
+            c.add_blackbox(cg.BlackBox("src", [], ["y"]), "src0", {"y": b})
+            if rng.random() < 0.5:
+                for n in list(c.graph.nodes):
+                    if c.type(n) == "bb_input":
+                        c.set_output(n)
+        if rng.random() < 0.3:
+            # make everything loaded, so that `unloaded=True` can come out clean
+            for n in list(c.graph.nodes):
+                if not c.fanout(n) and c.type(n) != "bb_input":
+                    c.set_output(n)
         tags = malform(rng, c) if rng.random() < 0.75 else []
         return c, tags
 
